@@ -234,25 +234,64 @@ def spec_label_set(spec):
 CASE_DEADLINE = 60.0
 
 
-def warm_continuum(spec, warm_recipe, kind):
-    """The same continuum reached through a non-initial state: built without its last unit, aligned once (with
-    another dissimilarity), then completed by add().  Anything cached on the continuum under a too coarse key
-    (unit arrays, candidate tables, window size) would survive into the run that is judged."""
+WARM_KINDS = ("add", "remove", "add_annotator", "merge")
+
+
+def warm_continuum(spec, warm, kind):
+    """The same continuum reached through a non-initial state: a neighbouring continuum is built and aligned
+    once (with another dissimilarity), then turned into `spec` by one mutator - add() of the missing unit,
+    remove() of an extra unit, add_annotator() of a missing empty annotator, or an in-place merge().  Anything
+    cached on the continuum and not invalidated by that mutator would survive into the run that is judged.
+    warm = {"recipe": ..., "how": one of WARM_KINDS}"""
     from ..spec import build_continuum
     from pyannote.core import Segment
+    how = warm.get("how", "add")
     anns = [[a, [list(u) for u in us]] for a, us in spec["annotators"]]
     nonempty = [i for i, (_, us) in enumerate(anns) if us]
-    if sum(len(us) for _, us in anns) < 2 or not nonempty:
+    total = sum(len(us) for _, us in anns)
+
+    def align(c):
+        try:
+            run_alignment(c, DISSIMS.get(warm["recipe"]), kind if kind != "fast" else "best", None)
+        except Exception:  # noqa - the warm-up run is not judged
+            pass
+
+    if how == "remove" and nonempty:
+        i = nonempty[0]
+        extra = [57, 59, anns[i][1][0][2]]
+        c = build_continuum({"annotators": [[a, us + ([extra] if k == i else [])] for k, (a, us) in enumerate(anns)]})
+        align(c)
+        c.remove(anns[i][0], to_unit_(extra))
+        return c
+    if how == "add_annotator":
+        empty = [i for i, (_, us) in enumerate(anns) if not us]
+        if empty and len(anns) - 1 >= 2:
+            i = empty[-1]
+            c = build_continuum({"annotators": [x for k, x in enumerate(anns) if k != i]})
+            align(c)
+            c.add_annotator(anns[i][0])
+            return c
+    if how == "merge" and len(nonempty) >= 1 and total >= 2:
+        i = nonempty[-1]
+        moved = anns[i][1][-1]
+        rest = [[a, (us[:-1] if k == i else us)] for k, (a, us) in enumerate(anns)]
+        c = build_continuum({"annotators": rest})
+        align(c)
+        c.merge(build_continuum({"annotators": [[anns[i][0], [moved]]]}), in_place=True)
+        return c
+    if total < 2 or not nonempty:
         return build_continuum(spec)
     i = nonempty[-1]
     last = anns[i][1].pop()
     c = build_continuum({"annotators": anns})
-    try:
-        run_alignment(c, DISSIMS.get(warm_recipe), kind if kind != "fast" else "best", None)
-    except Exception:  # noqa - the warm-up run is not judged
-        pass
+    align(c)
     c.add(anns[i][0], Segment(last[0], last[1]), last[2])
     return c
+
+
+def to_unit_(u):
+    from ..spec import to_unit
+    return to_unit(u)
 
 
 def eval_case(spec, recipe, backend, kind, window=None, warm=None):
